@@ -108,6 +108,32 @@ def judgeFinal (cfg : Cfg) (ops : List (Nat × OpK)) (evs : List Obs) (fin : Lis
     if ok then none
     else some (if cfg.wt then "store/writethrough/lost-write" else "store/writeback/lost-write")
 
+/-! ### cache warming (cache_warming.py)
+
+A `CacheWarmer` is one more client: it issues `cache.get(key)` for each key of its list, one after
+the other.  Its gets are operations like any other (numbered from `warmBase` by the harness) and are
+judged by the clauses above; what the warmer *reports* must match what its gets returned, and the
+warm-up must come to an end. -/
+
+def warmBase : Nat := 2000
+
+structure WarmObs where
+  n : Nat          -- keys_to_warm
+  warmed : Nat     -- keys_warmed
+  failed : Nat     -- keys_failed
+  complete : Bool  -- is_complete and progress == 1.0, when the run ended
+deriving Repr
+
+def judgeWarm (evs : List Obs) (w : WarmObs) : Option String :=
+  let rets := evs.filterMap fun o => if warmBase ≤ o.i then o.res else none
+  let vals := (rets.filter fun r => match r with | .val _ => true | _ => false).length
+  let nones := (rets.filter fun r => match r with | .none => true | _ => false).length
+  if w.warmed != vals then some "warmer/stats/warmed-count-wrong"
+  else if w.failed != nones then some "warmer/stats/failed-count-wrong"
+  else if !w.complete then some "warmer/progress/never-completes"
+  else if w.warmed + w.failed != w.n then some "warmer/progress/complete-before-all-keys"
+  else none
+
 def judgeStore (cfg : Cfg) (ops : List (Nat × OpK)) (evs : List Obs) (fin : Option (List (Key × Nat))) :
     Option String :=
   match judgeObs cfg evs with
